@@ -95,6 +95,13 @@ def execute(c, choices):
     return trace, {'outcome': outcome, 'results': results, 'spans': spans, 'initial': initial, 'pols': pols}
 
 
+def _explore_one(arg):
+    c, tier = arg
+    st = ConcStream()
+    st._tier = tier
+    return st._explore(c)
+
+
 class ConcStream(Stream):
     name = 'thread_interleavings'
     imports = guardlib.GUARD_IMPORTS.replace(
@@ -132,6 +139,17 @@ class ConcStream(Stream):
              'threads': [[['add', pol('x', 'allow')]], [['add', pol('x', 'deny')]]]},
             # two deletes of one uid
             {'checker': 'CExact', 'rxtable': [], 'init': [a], 'inquiries': [INQ], 'threads': [[['delete', 'a']], [['delete', 'a']]]},
+            # update || delete of one uid: the policy must be gone in both orders
+            {'checker': 'CExact', 'rxtable': [], 'init': [a, b], 'inquiries': [INQ],
+             'threads': [[['update', pol('a', 'deny')]], [['delete', 'a']]]},
+            # add || update of one uid (absent at the start), add || delete of one uid (present at the start)
+            {'checker': 'CExact', 'rxtable': [], 'init': [b], 'inquiries': [INQ],
+             'threads': [[['add', pol('x', 'allow')]], [['update', pol('x', 'deny')]]]},
+            {'checker': 'CExact', 'rxtable': [], 'init': [a], 'inquiries': [INQ],
+             'threads': [[['add', pol('a', 'deny')]], [['delete', 'a']]]},
+            # update || delete || decision
+            {'checker': 'CExact', 'rxtable': [], 'init': [a], 'inquiries': [INQ],
+             'threads': [[['update', pol('a', 'allow', subject='Max')]], [['delete', 'a']], [['decide', 0]]], 'bound': 1},
             # 2 decisions || 1 mutation
             {'checker': 'CExact', 'rxtable': [], 'init': [a], 'inquiries': [INQ, INQ2],
              'threads': [[['decide', 0]], [['decide', 1]], [['add', pol('p', 'allow', action='put')]]], 'bound': 1},
@@ -144,13 +162,21 @@ class ConcStream(Stream):
         ]
 
     def generate(self, rng, tier):
-        n = 3 if tier == 'quick' else 12
+        n = 5 if tier == 'quick' else 14
         for _ in range(n):
             a = pol('a', rng.choice(['allow', 'deny']))
             other = pol(rng.choice(['a', 'n']), rng.choice(['allow', 'deny']), action=rng.choice(['get', 'put']))
             mut = rng.choice([['add', other], ['update', other], ['delete', rng.choice(['a', 'n'])]])
             yield {'checker': rng.choice(['CExact', 'CRegex', 'CFuzzy']), 'rxtable': [], 'init': [a],
                    'inquiries': [INQ, INQ2], 'threads': [[['decide', rng.choice([0, 1])]], [mut]]}
+        for _ in range(n):
+            # two mutators on one uid
+            def mutation():
+                k = rng.choice(['add', 'update', 'delete', 'delete'])
+                return ['delete', 'a'] if k == 'delete' else [k, pol('a', rng.choice(['allow', 'deny']))]
+            init = [pol('a', 'allow')] if rng.random() < 0.7 else []
+            yield {'checker': 'CExact', 'rxtable': [], 'init': init + [pol('b', 'allow', action='zzz')],
+                   'inquiries': [INQ], 'threads': [[mutation()], [mutation()] + ([mutation()] if rng.random() < 0.4 else [])]}
 
     def key(self, c):
         return core.digest(c)
@@ -193,7 +219,7 @@ class ConcStream(Stream):
             return self._runs[k]
         tier = getattr(self, '_tier', 'quick')
         bound = c.get('bound', 2 if tier == 'quick' else 3)
-        max_runs = 700 if tier == 'quick' else 8000
+        max_runs = 1000 if tier == 'quick' else 8000
         runs = []
 
         def make_run(choices):
@@ -213,6 +239,18 @@ class ConcStream(Stream):
             runs.append(([], [], {'outcome': 'DEADLOCK %s' % e, 'results': [], 'spans': [], 'initial': (), 'pols': {}}))
         self._runs[k] = runs
         return runs
+
+    def prepare(self, cases):
+        """explore the schedules of all scenarios in parallel processes (each exploration is deterministic and
+        independent); results land in the same cache _explore() fills"""
+        import multiprocessing as mp
+        todo = [c for c in cases if self.key(c) not in self._runs]
+        if len(todo) < 2:
+            return
+        tier = getattr(self, '_tier', 'quick')
+        with mp.get_context('fork').Pool(min(14, len(todo))) as pool:
+            for c, runs in zip(todo, pool.map(_explore_one, [(c, tier) for c in todo], chunksize=1)):
+                self._runs[self.key(c)] = runs
 
     def generate_wrapper(self, rng, tier):
         self._tier = tier
